@@ -46,7 +46,7 @@ def exc_class(name):
     return {'VErrA': VErrA, 'VErrB': VErrB, 'VErrC': VErrC, 'VBase': VBase, 'VFalsy': VFalsy, 'Exception': Exception,
             'ValueError': ValueError, 'LookupError': LookupError, 'KeyError': KeyError,
             'IndexError': IndexError, 'OSError': OSError, 'FileNotFoundError': FileNotFoundError,
-            'NotImplementedError': NotImplementedError}[name]
+            'NotImplementedError': NotImplementedError, 'StopIteration': StopIteration}[name]
 
 
 # ---------------------------------------------------------------------------------------------------------------------
